@@ -34,7 +34,7 @@ CFGS = {
     "period_q": dict(Extras='{"period"}', RewardAmts="{}", RcvKinds='{"self"}', Returns='{"exact"}', Principals='{"u1"}', MaxTime="7"),
     # the admin corrects the totals on resume (down / up): the rates posted are those of the NEW totals
     "resume_q": dict(ResumeScales='{"same", "down", "up", "rewards0"}', UnstakeAmts="{}", RewardAmts="{2}", RcvKinds='{"self"}', Returns="{}", MaxBatches="1",
-                     MaxN="9", MaxSeq="3", MaxPk="3", MaxTime="0", Principals='{"admin"}', Extras='{"unoracle"}'),
+                     MaxN="9", MaxSeq="3", MaxPk="3", MaxTime="0", Principals='{"admin"}', Extras='{"unoracle", "resumerunning"}'),
     # IBC faults WHILE the contract holds other money (a returned batch waiting to be withdrawn): an over-sized re-send is
     # then covered by somebody else's funds instead of being stopped by the bank
     "ibc_hold_q": dict(Outcomes='{"ok", "err"}', Returns='{"exact"}', UnstakeAmts="{3}", RewardAmts="{}", RcvKinds='{"self"}', MaxBatches="2", MaxN="6",
